@@ -21,6 +21,7 @@ fn main() {
             "C07" => vh::c07::check("C07"),
             "C08" => vh::c07::check("C08"),
             "C09" => vh::c09::check(),
+            "C11" => vh::c11::check(),
             "C12" => vh::c12::check_c12(),
             "C13" => vh::c12::check_c13(),
             "C14" => vh::c12::check_c14(),
@@ -59,6 +60,7 @@ fn main() {
                 "c05" | "c05s" => vh::c05::replay(r),
                 "c16h" | "c16s" => vh::c16::replay(r),
                 "c15" | "c15enc" => vh::c15::replay(r),
+                "c11" => vh::c11::replay(r),
                 "c12" | "c13" | "c14" => vh::c12::replay(r),
                 "c06h" | "c06s" => vh::c06::replay(r),
                 _ => usage(),
